@@ -454,6 +454,80 @@ impl Model {
         }
     }
 
+    /// A stepped iteration (`Op::IterSteps`): every yield is judged at the reading of its own
+    /// `next()` call; an entry that is alive at the final reading was alive throughout (time
+    /// only moves forward and nothing is written during the iteration) and must have been
+    /// yielded; nothing is yielded twice.
+    pub fn judge_iter_stepped(
+        &mut self,
+        step: usize,
+        script: &[crate::ops::IterStep],
+        yields: &[Option<(u16, u32)>],
+        out: &mut Vec<Violation>,
+    ) {
+        use crate::ops::IterStep;
+        let unsync = self.cfg.kind == Kind::Unsync;
+        let mut seen = BTreeSet::new();
+        let mut ys = yields.iter();
+        let judge_yield = |m: &mut Model, y: &Option<(u16, u32)>, seen: &mut BTreeSet<u16>, out: &mut Vec<Violation>| {
+            if let Some((k, vid)) = y {
+                if !seen.insert(*k) {
+                    out.push(Violation {
+                        rule: "C16.duplicate".into(),
+                        msg: format!("stepped iteration yielded key {} twice", k),
+                        step,
+                        key: Some(*k),
+                    });
+                }
+                let before = out.len();
+                m.judge_lookup(step, "iter", *k, true, Some(*vid), false, out);
+                if out.len() > before {
+                    let msg = format!("stepped iteration, at reading {}: {}", m.now, out[before].msg);
+                    out.push(Violation {
+                        rule: "C16.yielded-dead-or-stale".into(),
+                        msg,
+                        step,
+                        key: Some(*k),
+                    });
+                }
+            }
+        };
+        for s in script {
+            match s {
+                IterStep::Next => {
+                    if let Some(y) = ys.next() {
+                        judge_yield(self, y, &mut seen, out);
+                    }
+                }
+                IterStep::Advance { ns } => self.advance(*ns),
+                IterStep::InvalidateAll => {
+                    if !unsync {
+                        self.invalidate_all(step);
+                    }
+                }
+            }
+        }
+        for y in ys {
+            judge_yield(self, y, &mut seen, out);
+        }
+        let keys: Vec<u16> = self.entries.keys().copied().collect();
+        for k in keys {
+            if !seen.contains(&k) {
+                let before = out.len();
+                self.judge_lookup(step, "iter", k, false, None, false, out);
+                if out.len() > before {
+                    let m = format!("stepped iteration: {}", out[before].msg);
+                    out.push(Violation {
+                        rule: "C16.missing-live-entry".into(),
+                        msg: m,
+                        step,
+                        key: Some(k),
+                    });
+                }
+            }
+        }
+    }
+
     /// Accepts the implementation's evictions while the run is not capacity-safe and
     /// re-arms the latch when possible. `resident` = keys physically resident with the
     /// value ids the implementation holds.
